@@ -172,7 +172,7 @@ int fb_gen_common_c_builder_header(fb_output_t *out)
         "static inline TN ## _t *N ## _start_as_root(NS ## builder_t *B)\\\n"
         "{ return NS ## buffer_start(B, FID) ? 0 : TN ## _start(B); }\\\n"
         "static inline TN ## _t *N ## _start_as_typed_root(NS ## builder_t *B)\\\n"
-        "{ return NS ## buffer_start(B, FID) ? 0 : TN ## _start(B); }\\\n"
+        "{ return NS ## buffer_start(B, TFID) ? 0 : TN ## _start(B); }\\\n"
         "static inline int N ## _end_as_root(NS ## builder_t *B)\\\n"
         "{ return N ## _add(B, NS ## buffer_end(B, TN ## _end(B))); }\\\n"
         "static inline int N ## _end_as_typed_root(NS ## builder_t *B)\\\n"
